@@ -1,3 +1,4 @@
 pub mod build;
 pub mod model;
 pub mod ufo;
+pub mod corpus;
